@@ -31,39 +31,53 @@ def open_ndef(sx, world, who):
 
 def roundtrip(sx, world, n, prop="C01"):
     """one write of a symbolic n-byte message and a fresh read back.
-    prop C01: round-trip/capacity obligations; prop C03: area obligations."""
+    prop C01: round-trip/capacity obligations; prop C03: only the area
+    obligations (the C01 obligations are not evaluated at all, so that a C01
+    defect can neither raise a C03 alarm nor hide a C03 defect)."""
     kind = world.kind
-    real_sx = sx
-    if prop != "C01":
-        sx = Muted(sx)
+    c01 = prop == "C01"
     tag, ndef = open_ndef(sx, world, "first")
     if ndef is None:
-        sx.check(False, "well-formed-layout-not-recognised:" + kind)
+        if c01:
+            sx.check(False, "well-formed-layout-not-recognised:" + kind)
+        sx.assume(False, "C03 run: layout not recognised (judged by C01)")
     cap = ndef.capacity
-    sx.check(cap <= world.cap, "capacity-exceeds-layout:" + kind)
-    sx.check(sx.eq(ndef.octets, world.old), "initial-read-differs:" + kind)
+    if c01:
+        sx.check(cap <= world.cap, "capacity-exceeds-layout:" + kind)
+        sx.check(sx.eq(ndef.octets, world.old), "initial-read-differs:" + kind)
     cap = sx.concrete(cap)
     msg = new_message(sx, n, getattr(world, 'long_trick', False))
     before = world.snapshot()
     ncmd = world.sim.ncmd
     for l in world.geometry(n):
         sx.reach(l)
+    world.sim.writes = []
     try:
         ndef.octets = msg
     except ValueError:
-        sx.check(n > cap, "fitting-message-rejected:" + kind)
-        sx.check(world.sim.ncmd == ncmd, "command-sent-before-oversize-rejection:" + kind)
+        if c01:
+            sx.check(n > cap, "fitting-message-rejected:" + kind)
+            sx.check(world.sim.ncmd == ncmd, "command-sent-before-oversize-rejection:" + kind)
         sx.reach("oversize_rejected")
+        if not c01:
+            check_area(sx, world, before, "write")
         return "rejected"
-    sx.check(n <= cap, "oversize-message-accepted:" + kind)
+    except nfc.tag.TagCommandError:
+        if c01:
+            raise
+        # C03: whatever was written before the failure must respect the area
+        check_area(sx, world, before, "write")
+        return "write-failed"
+    if c01:
+        sx.check(n <= cap, "oversize-message-accepted:" + kind)
     if n == 0:
         sx.reach("empty_message_written")
     if n >= 255:
         sx.reach("three_byte_length")
     if n == cap:
         sx.reach("message_fills_capacity")
-    if prop == "C03":
-        check_area(real_sx, world, before, "write")
+    if not c01:
+        check_area(sx, world, before, "write")
         return "written"
     tag2, ndef2 = open_ndef(sx, world, "second")
     if ndef2 is None:
@@ -93,22 +107,6 @@ def check_area(sx, world, before, what):
              if b not in world.area]
     sx.check(sx.all(conds), "%s-final-memory-differs-outside-ndef-area:%s" % (what, kind))
     world.sim.writes = []
-
-
-class Muted(object):
-    """the same API with obligations switched off (the conversation is driven
-    for another property's obligations)"""
-
-    def __init__(self, sx):
-        self._sx = sx
-
-    def __getattr__(self, name):
-        return getattr(self._sx, name)
-
-    def check(self, cond, label):
-        if cond is False:
-            self._sx.assume(False, "conversation of another property failed: " + label)
-        return True
 
 
 def formatflow(sx, world, wipe):
